@@ -449,7 +449,7 @@ func CreateIndex(s *sim.Src, name, table string, cols []string, fancy int, allow
 			p = IdentRef(s, cols[k], fancy)
 			if fancy >= 5 && s.Chance(1, 12, "comment-after-column") {
 				// a comment ending in a number: "a -- 1" must not read as a - -1
-				p += []string{" -- 1\n", " /* 2 */", " --\n", " -- x 3\n"}[s.Draw(4, "commentkind")]
+				p += []string{" -- 1\n", " /* 2 */", " --\n", " -- x 3\n", " /*/ 4 */", " /**/", " /* -- */", " /*/, nosuch /*/"}[s.Draw(8, "commentkind")]
 			}
 		}
 		if s.Chance(1, 3, "ixcoll") {
